@@ -807,6 +807,14 @@ impl TransactionBuilder {
             ));
         }
 
+        // the collateral return is an output like any other: its value may not exceed the maximum value size
+        let return_value_size = collateral_return.amount.to_bytes().len();
+        if return_value_size > self.config.max_value_size as usize {
+            return Err(JsError::from_str(&format!(
+                "Maximum value size of {} exceeded. Found: {}",
+                self.config.max_value_size, return_value_size
+            )));
+        }
         let min_ada = min_ada_for_output(&collateral_return, &self.config.utxo_cost())?;
         if min_ada > collateral_return.amount.coin {
             return Err(JsError::from_str(&format!(
@@ -855,6 +863,14 @@ impl TransactionBuilder {
         let col_return: Value = col_input_value.checked_sub(&Value::new(&total_collateral))?;
         if col_return.multiasset.is_some() || col_return.coin > BigNum::zero() {
             let return_output = TransactionOutput::new(return_address, &col_return);
+            // the collateral return is an output like any other: its value may not exceed the maximum value size
+            let return_value_size = return_output.amount.to_bytes().len();
+            if return_value_size > self.config.max_value_size as usize {
+                return Err(JsError::from_str(&format!(
+                    "Maximum value size of {} exceeded. Found: {}",
+                    self.config.max_value_size, return_value_size
+                )));
+            }
             let min_ada = min_ada_for_output(&return_output, &self.config.utxo_cost())?;
             if min_ada > col_return.coin {
                 return Err(JsError::from_str(&format!(
